@@ -4,7 +4,7 @@
    the grid as left by the previous ones (in-place sweep).  [inplace = false] models a simultaneous update
    (the first solidification step, where T_k was just replaced by a fresh array).  Generic in the number type. *)
 From Coq Require Import ZArith List Bool Arith.
-From Snow Require Import Num.
+From Snow Require Import Num Sn1D.
 Import ListNotations.
 
 Section Sn2D.
@@ -131,5 +131,13 @@ Section Sn2D.
                              x + s_Kw P * (Tsh - x) * s_dr P / nth (Nr - 1) (snd rk) zero) (combine g kk) in
     let g' := sweep inplace (solid_cell kk cc bb Tb Tt Te) g in
     (g', map (map ice2) g').
+
+  (* ---- evaporation: per-column flux, only strictly inside the vacuum window (same window test as the 1D model) ---- *)
+  Definition qe2 (visf : bool) (t tstart tdur dHe : A) (fluxes : list A) : list A :=
+    map (fun f => q_evap o visf t tstart tdur f dHe) fluxes.
+  Definition cool_step2_t (visf : bool) (t tstart tdur dHe : A) (g : grid) (Tsh : A) (fluxes : list A) : grid :=
+    cool_step2 g Tsh (qe2 visf t tstart tdur dHe fluxes).
+  Definition solid_step2_t (inplace visf : bool) (t tstart tdur dHe : A) (g w : grid) (Tsh : A) (fluxes : list A) : grid * grid :=
+    solid_step2 inplace g w Tsh (qe2 visf t tstart tdur dHe fluxes).
 End Sn2D.
 Arguments MkP2 {A}.
